@@ -49,7 +49,7 @@ type tlsTrial struct {
 
 func runInbound(id int, rnd *rand.Rand, port int, reader *recReader, victim *madeCert) tlsTrial {
 	// certificate
-	kinds := []string{"none", "noext", "len", "len", "copied", "honest", "honest", "honest", "copied-ed25519", "copied-rsa", "honest-ed25519", "chain-victim", "chain-victim-noext", "honest-chain"}
+	kinds := []string{"none", "noext", "len", "len", "copied", "honest", "honest", "honest", "copied-ed25519", "copied-rsa", "honest-ed25519", "chain-victim", "chain-victim-noext", "honest-chain", "forged-after-victim"}
 	kind := kinds[rnd.Intn(len(kinds))]
 	var mc *madeCert
 	var err error
@@ -81,6 +81,29 @@ func runInbound(id int, rnd *rand.Rand, port int, reader *recReader, victim *mad
 		mc, err = makeCert(certSpec{ski: nil, chain: victim.tls.Certificate}, "peer")
 	case "honest-chain":
 		mc, err = makeCert(certSpec{useKey: true, chain: victim.tls.Certificate}, "peer")
+	case "forged-after-victim":
+		// the genuine victim connects first (whatever the hub remembers about checked certificates is there now); then a
+		// certificate over another key that copies the victim's identifier, serial number and names
+		func() {
+			cfg := &tls.Config{InsecureSkipVerify: true, MinVersion: tls.VersionTLS12, Certificates: []tls.Certificate{victim.tls},
+				CipherSuites: cert.CipherSuites}
+			d := websocket.Dialer{TLSClientConfig: cfg, Subprotocols: []string{"ship"}, HandshakeTimeout: 3 * time.Second}
+			if c, resp, derr := d.Dial(fmt.Sprintf("wss://127.0.0.1:%d/ship/", port), nil); derr == nil {
+				_ = c.WriteMessage(websocket.BinaryMessage, []byte{0, 0})
+				_ = c.SetReadDeadline(time.Now().Add(300 * time.Millisecond))
+				_, _, _ = c.ReadMessage()
+				c.Close()
+				if resp != nil && resp.Body != nil {
+					resp.Body.Close()
+				}
+			}
+			time.Sleep(50 * time.Millisecond)
+		}()
+		if leaf, perr := parseLeaf(victim.tls); perr == nil {
+			mc, err = makeCert(certSpec{ski: victim.ext, serial: leaf.SerialNumber, cn: leaf.Subject.CommonName}, "peer")
+		} else {
+			err = perr
+		}
 	}
 	if err != nil {
 		return tlsTrial{"bad-cert " + err.Error(), "skip"}
@@ -203,7 +226,7 @@ func startFakeNode(mc *madeCert) *fakeNode {
 }
 
 func runOutbound(id int, rnd *rand.Rand, h *hub.Hub, fm *fakeMdns, victim *madeCert) tlsTrial {
-	kinds := []string{"honest", "honest", "other", "copied", "noext", "short"}
+	kinds := []string{"honest", "honest", "other", "copied", "noext", "short", "other-after-honest"}
 	kind := kinds[rnd.Intn(len(kinds))]
 	var mc *madeCert
 	var err error
@@ -214,7 +237,7 @@ func runOutbound(id int, rnd *rand.Rand, h *hub.Hub, fm *fakeMdns, victim *madeC
 		if err == nil {
 			dialled = hex.EncodeToString(mc.ext)
 		}
-	case "other": // honest certificate, but the hub dials a different SKI
+	case "other", "other-after-honest": // honest certificate, but the hub dials a different SKI
 		mc, err = makeCert(certSpec{useKey: true}, "node")
 		b := make([]byte, 20)
 		rnd.Read(b)
@@ -240,6 +263,28 @@ func runOutbound(id int, rnd *rand.Rand, h *hub.Hub, fm *fakeMdns, victim *madeC
 	}
 	node := startFakeNode(mc)
 	defer node.srv.Close()
+	if kind == "other-after-honest" {
+		// the hub first connects to this node under the node's own SKI (it may keep a TLS session for that host), then it
+		// is told that another SKI it trusts lives at the same address
+		own := hex.EncodeToString(mc.ext)
+		h.RegisterRemoteSKI(own)
+		fm.publish(&api.MdnsEntry{Name: "node", Ski: own, Identifier: "node", Path: "/ship/", Register: false, Host: "127.0.0.1", Port: node.port, Addresses: []net.IP{net.ParseIP("127.0.0.1")}})
+		for i := 0; i < 150; i++ {
+			node.mu.Lock()
+			g := node.gotInit
+			node.mu.Unlock()
+			if g {
+				break
+			}
+			time.Sleep(10 * time.Millisecond)
+		}
+		fm.withdraw(own)
+		h.UnregisterRemoteSKI(own)
+		time.Sleep(700 * time.Millisecond) // the node ends the first connection
+		node.mu.Lock()
+		node.gotInit, node.conns = false, 0
+		node.mu.Unlock()
+	}
 	h.RegisterRemoteSKI(dialled)
 	fm.publish(&api.MdnsEntry{Name: "node", Ski: dialled, Identifier: "node", Path: "/ship/", Register: false, Host: "127.0.0.1", Port: node.port, Addresses: []net.IP{net.ParseIP("127.0.0.1")}})
 	deadline := time.Now().Add(1500 * time.Millisecond)
